@@ -119,6 +119,17 @@ class SolverWorld(World):
         from desolver.utilities import optimizer as OPT
         dtype = np.dtype({"float32": np.float32, "float64": np.float64, "longdouble": np.longdouble}[op["dtype"]])
         Fm, Jm = system_F(op["system"], dtype)
+        if op.get("f_dtype"):
+            # a residual function that works in (and returns) a narrower precision than the initial guess it is handed: THAT function is the
+            # system to be solved, its rounding noise included
+            fd = np.dtype({"float32": np.float32, "float16": np.float16}[op["f_dtype"]])
+            Fn, Jn = system_F(op["system"], fd)
+
+            def Fm(x, _F=Fn, _fd=fd):
+                return np.asarray(_F(np.asarray(x).astype(_fd)), dtype=_fd)
+
+            def Jm(x, _J=Jn, _fd=fd):
+                return np.asarray(_J(np.asarray(x).astype(_fd)), dtype=_fd)
         w = self
 
         def F(x, *a, **k):
@@ -227,6 +238,12 @@ class C15(Prop):
             tol = r.choice([None, 1e-6, 1e-9, 1e-12])
             ops.append({"system": desc, "x0": x0, "dtype": dtype, "entry": entry, "tol": tol, "user_jac": bool(r.random() < 0.6),
                         "maxiter": r.choice([200, 200, 50, 10])})
+            rn_ = gen.sub(seed, "narrow%d" % j)
+            if rn_.random() < 0.12 and kind in ("quad", "fixedpoint", "exp"):
+                ops[-1].update({"dtype": "float64", "f_dtype": "float32", "tol": rn_.choice([1e-9, 1e-9, 1e-12]),
+                                "entry": rn_.choice(["nonlinear_roots", "nonlinear_roots", "newtontrustregion"])})
+                if start in ("huge", "far"):
+                    ops[-1]["x0"] = [0.5 + 0.1 * q for q in range(n)]
         scn = {"v": 1, "seed": seed, "profile": "C15", "standalone": True, "problem": {"family": "logistic", "shape": [1], "dtype": "float64", "params": {"r": [1.0]}, "y0": [0.5]},
                "system": {"t0": 0.0, "tf": 1.0, "dt": 0.1, "method": None, "dense": False, "constants": {}}, "knobs": {}, "events": [], "ops": ops, "faults": []}
         rf = gen.sub(seed, "faults")
